@@ -199,19 +199,19 @@ def plan(ctx: Ctx) -> T.List[T.Tuple[str, int, int, bool]]:
                                                    ('methods', rng.getrandbits(32), 0, full),
                                                    ('functions', rng.getrandbits(32), 0, full)]
     chunk = 250
-    for kind, total in (('rand', ctx.scale(14000, 60000)), ('mutant', ctx.scale(9000, 40000)),
-                        ('alias', ctx.scale(4000, 15000))):
+    for kind, total in (('rand', ctx.scale(14000, 40000)), ('mutant', ctx.scale(9000, 25000)),
+                        ('alias', ctx.scale(4000, 10000))):
         for _ in range(total // chunk):
             tasks.append((kind, rng.getrandbits(32), chunk, full))
-    for name, total, ch in (('short_circuit', ctx.scale(1500, 7500), 250), ('divmod', ctx.scale(3000, 15000), 500),
-                            ('index', ctx.scale(3000, 15000), 500), ('keys', ctx.scale(1000, 5000), 250),
-                            ('parse_laws', ctx.scale(4000, 20000), 500), ('precedence_values', ctx.scale(3000, 15000), 500),
-                            ('control', ctx.scale(800, 4000), 200), ('variables', ctx.scale(1500, 7500), 250)):
+    for name, total, ch in (('short_circuit', ctx.scale(1500, 5000), 250), ('divmod', ctx.scale(3000, 10000), 500),
+                            ('index', ctx.scale(3000, 10000), 500), ('keys', ctx.scale(1000, 3000), 250),
+                            ('parse_laws', ctx.scale(4000, 12000), 500), ('precedence_values', ctx.scale(3000, 10000), 500),
+                            ('control', ctx.scale(800, 2400), 200), ('variables', ctx.scale(1500, 5000), 250)):
         for _ in range(max(1, total // ch)):
             tasks.append(('oracle:' + name, rng.getrandbits(32), ch, full))
     tasks.append(('oracle:cross_type', 0, 0, True))
     tasks.append(('oracle:escapes', 0, 0, True))
-    for _ in range(ctx.scale(8, 96)):
+    for _ in range(ctx.scale(8, 64)):
         tasks.append(('oracle:files', rng.getrandbits(32), 1, full))
     return tasks
 
